@@ -88,7 +88,9 @@ class G:
     def scalar(self, fl):
         """-> (value syntax, shape, choice dict)"""
         r = self.r
-        k = r.randrange(8)
+        k = r.choice([0, 0, 1, 1, 2, 3, 4, 5, 5, 6, 6, 7]) if r.random() < 0.93 else 7
+        if k == 7 and r.random() < 0.8:
+            k = 0
         ch = {}
         if k == 0:
             kind, s = self.text_str()
@@ -97,14 +99,16 @@ class G:
         if k == 1:
             bits, signed = r.choice([(8, False), (16, False), (32, False), (64, False), (8, True), (16, True), (32, True), (64, True)])
             lo, hi = (-(1 << (bits - 1)), (1 << (bits - 1)) - 1) if signed else (0, (1 << bits) - 1)
-            z = r.choice([lo, hi, r.randrange(lo, hi + 1), r.randrange(-300, 300), hi + 1, lo - 1])
+            z = r.choice([lo, hi, r.randrange(lo, hi + 1), r.randrange(lo, hi + 1), max(lo, min(hi, r.randrange(-300, 300)))])
+            if r.random() < 0.04:
+                z = r.choice([hi + 1, lo - 1])
             z = max(-(1 << 63) + 1, min(z, (1 << 64) - 1))
             ws = [w for w, (a, b) in (("i32", (-2 ** 31, 2 ** 31 - 1)), ("u32", (0, 2 ** 32 - 1)), ("i64", (-2 ** 63, 2 ** 63 - 1)), ("u64", (0, 2 ** 64 - 1))) if a <= z <= b]
             ch["int"] = r.choice(ws)
             sh = "%s%d" % ("i" if signed else "u", bits)
             if bits == 16 and not signed:
                 sh = "u32"                         # u16 is the token hint: not in scalar_shared on strings only, fine on ints; keep clear of it
-            if r.random() < 0.1:
+            if r.random() < 0.02:
                 sh = "bool"                        # both sides refuse
             return "I %d" % z, sh, ch
         if k == 2:
@@ -114,7 +118,7 @@ class G:
             return "I %d" % z, r.choice(["f64", "f32", "opt(f64)"]), ch     # int_float_ok: exact in f64
         if k == 3:
             b = r.random() < 0.5
-            return "B %d" % b, r.choice(["bool", "bool", "u8", "i32"]), ch
+            return "B %d" % b, ("bool" if r.random() < 0.95 else r.choice(["u8", "i32"])), ch
         if k == 4:
             v, txt = self.date(False)
             ch["date"] = r.random() < 0.6
@@ -147,7 +151,8 @@ class G:
     def rgb(self):
         r = self.r
         n = r.choice([3, 3, 4])
-        c = [r.choice([r.randrange(0, 256), r.randrange(0, 256), r.randrange(0, 70000), 2 ** 32 - 1, 0, 255, 256, 2 ** 24 + 1]) for _ in range(n)]
+        big = r.random() < 0.12
+        c = [r.choice([r.randrange(0, 70000), 2 ** 32 - 1, 256, 2 ** 24 + 1, 65535, 65536]) if big else r.choice([r.randrange(0, 256), 0, 255]) for _ in range(n)]
         return "RGB %d %d %d %s" % (c[0], c[1], c[2], c[3] if n == 4 else "-")
 
     # ---- values: -> (syntax, full shape, plain shape, choices {relative path tuple: dict})
